@@ -66,11 +66,22 @@ type PEvent struct {
 	Sidx  int    `json:"sidx"`
 }
 
+// PSeg is a logged segment: flow of the run that moved on, the node it names (flow, number), the exit (number within its
+// own node) and the destination node
+type PSeg struct {
+	Flow  int `json:"flow"`
+	NFlow int `json:"nflow"`
+	Node  int `json:"node"`
+	Exit  int `json:"exit"`
+	Dest  int `json:"dest"`
+}
+
 type Proj struct {
 	Status string   `json:"status"`
 	Err    int      `json:"err"`
 	Runs   []PRun   `json:"runs"`
 	Events []PEvent `json:"events"`
+	Segs   []PSeg   `json:"segs"`
 }
 
 type Behaviour struct {
@@ -565,6 +576,9 @@ type TLine struct {
 	Hang       bool     `json:"hang"`       // the call did not return within the watchdog
 	Impossible bool     `json:"impossible"` // before the call: waiting run's flow missing / resume limit reached / node vanished / node lacks a wait
 	Generated  bool     `json:"generated"`  // line comes from a generated behaviour (only modelled faults present)
+	HasExp     bool     `json:"hasexp"`     // replayed behaviour: the specification's outcome of this call is known ...
+	ExpErr     int      `json:"experr"`     // ... and this is its error code (0 = the call goes through, 101/102/103 = rejected)
+	Segs       []PSeg   `json:"segs"`       // generated flows only: the sprint's segments, numbers decoded from the UUIDs
 }
 
 type flowTable struct {
@@ -755,6 +769,23 @@ func (t *sessionTracker) project(s flows.Session, sp flows.Sprint) *TLine {
 		}
 		line.Events = append(line.Events, te)
 	}
+	line.Segs = []PSeg{}
+	if sp != nil {
+		for _, g := range sp.Segments() {
+			ps := PSeg{Flow: t.flowIndex(g.Flow().UUID())}
+			if u := string(g.Node().UUID()); strings.HasPrefix(u, "a0000000-0000-4000-8000-") {
+				fmt.Sscanf(u[24:27], "%03d", &ps.NFlow)
+				fmt.Sscanf(u[27:31], "%04d", &ps.Node)
+			}
+			if u := string(g.Exit().UUID()); strings.HasPrefix(u, "e0000000-0000-4000-8000-") {
+				fmt.Sscanf(u[31:33], "%02d", &ps.Exit)
+			}
+			if u := string(g.Destination().UUID()); strings.HasPrefix(u, "a0000000-0000-4000-8000-") {
+				fmt.Sscanf(u[27:31], "%04d", &ps.Dest)
+			}
+			line.Segs = append(line.Segs, ps)
+		}
+	}
 	line.Accepted = t.accepted
 	for _, e := range spEvents {
 		if fe, ok := e.(*events.FailureEvent); ok && strings.HasPrefix(fe.Text, "reached maximum number of steps per sprint") {
@@ -770,7 +801,10 @@ func (t *sessionTracker) project(s flows.Session, sp flows.Sprint) *TLine {
 var modelEventTypes = map[string]bool{"failure": true, "msg_wait": true, "flow_entered": true, "run_expired": true, "msg_received": true, "wait_timed_out": true, "dial_wait": true}
 
 func modelProj(line *TLine, nnodes int) Proj {
-	p := Proj{Status: line.Status, Err: line.Err, Runs: []PRun{}, Events: []PEvent{}}
+	p := Proj{Status: line.Status, Err: line.Err, Runs: []PRun{}, Events: []PEvent{}, Segs: line.Segs}
+	if p.Segs == nil {
+		p.Segs = []PSeg{}
+	}
 	for _, r := range line.Runs {
 		pr := PRun{Flow: r.Flow, Parent: r.Parent, Status: r.Status, Exited: r.Exited, Path: []PStep{}}
 		for _, s := range r.Path {
